@@ -185,6 +185,34 @@ def gen_library(rng, world, lib, truth="main", depth=None, read_len=None, cuts=N
     return world
 
 
+def gen_library_segments(rng, world, lib, segments, truth="main", read_len=(150, 400), mapq=60):
+    """
+    Reads confined to segments [(chrom index, start, end, depth)]: every segment is a read-disconnected
+    block with its own coverage.
+    """
+    reads = []
+    ploidy = world.get("ploidy", 2)
+    for s in world["samples"]:
+        serial = 0
+        for (ci, a, b, depth) in segments:
+            lo, hi = read_len
+            hi = min(hi, b - a)
+            lo = min(lo, hi)
+            mean = (lo + hi) / 2.0
+            n = max(2, int(depth * (b - a) / mean))
+            for _ in range(n):
+                ln = rng.randrange(lo, hi + 1)
+                st = rng.randrange(a, max(a + 1, b - ln + 1))
+                en = min(b, st + ln)
+                if en - st < 20:
+                    continue
+                reads.append({"name": "%s_%s_%d" % (lib, s, serial), "sample": s, "chrom": ci, "start": st, "end": en,
+                              "hap": rng.randrange(ploidy), "mapq": mapq, "flag": 0})
+                serial += 1
+    world["libs"][lib] = {"truth": truth, "reads": reads}
+    return world
+
+
 # ------------------------------------------------------------------------------------------------
 # materialisation
 
